@@ -155,6 +155,11 @@ def shapes(tier):
                 raw(b'a/1/.sccachetmpDEEP', 'C', 4), raw(b'preprocessor/.sccachetmpPP', 'C', 6),
                 raw(b'preprocessor/a/b/.sccachetmpPPD', 'E', 8)],
                [put(K1, 'A'), get(K1)]))
+    sh.append(('leftover temp files larger than the free space', e['C'] + e['A'] + 20,
+               [ini(K1, 'C', 5), ini(K2, 'A', 6), raw(b'.sccachetmpBIG', 'D', 7), raw(b'preprocessor/.sccachetmpPB', 'B', 4)],
+               [get(K1), get(K2)]))
+    sh.append(('nested put dies mid-write in a nearly full cache', e['C'] + e['q'] + 10, [ini(K1, 'C', 5), pp_ini(P2, 'q', 6)],
+               [pp_put(P1, 'r', 2), get(K1)]))
     sh.append(('empty entry', big, [], [put(K1, 'E'), get(K1)]))
     sh.append(('failing write/get over an old entry', big, [ini(K1, 'C', 5)], [put(K1, 'A', 2, 1), get(K1)]))
     sh.append(('failing write/put under pressure', e['A'] + e['B'] - 1, [], [put(K1, 'A', 1, 1), put(K2, 'B')]))
@@ -474,6 +479,24 @@ def monitor(case, out):
 
     check_obs('before the crash', out[1:7], True)
     check_obs('after restart', out[7:13], False)
+
+    # Leftover temp files are never COUNTED: if the complete entries that were served right before the crash fit
+    # the capacity together (staged bytes of stores in flight and leftover temp files excluded), the restart has
+    # no reason to delete any of them - each must still be served, unchanged.
+    try:
+        before = [(False, k, o) for k, o in zip(mkeys, out[1])] + [(True, k, o) for k, o in zip(pkeys, out[2])]
+        after = dict(((False, k), o) for k, o in zip(mkeys, out[7]))
+        after.update(((True, k), o) for k, o in zip(pkeys, out[8]))
+        held = [(st, k, o) for st, k, o in before if isinstance(o, list) and o and o[0] == b'hit' and (st, k, o[1]) in elen_of]
+        total = sum(elen_of[(st, k, o[1])] for st, k, o in held)
+        if total <= cap:
+            for st, k, o in held:
+                if after.get((st, k)) != o:
+                    vs.append('after restart: %s key %r held the complete entry %d before the crash and all entries (%d bytes) '
+                              'fit the limit %d, but the restarted cache answers %r (something other than entries was '
+                              'charged against the limit)' % ('nested' if st else 'result', k, o[1], total, cap, after.get((st, k))))
+    except Exception as ex:
+        vs.append('malformed observation: %r' % (ex,))
     return vs
 
 
